@@ -83,8 +83,11 @@ func Setup(tmpDir string) error {
 
 // NetEnv is the simulated world of one run.
 type NetEnv struct {
-	K   *sim.Kernel
-	Srv *refsmtpd.Server
+	// DialBlocks: the dial function blocks until its context is done (see Dial).
+	DialBlocks    bool
+	DialBlockedAt int64
+	K             *sim.Kernel
+	Srv           *refsmtpd.Server
 	// Later: servers for the second, third, … connection (the peer may behave differently each
 	// time the client dials); connections beyond the list are served by Srv.
 	Later  []*refsmtpd.Server
@@ -116,6 +119,13 @@ type CallRec struct {
 // Dial is the mail.DialContextFunc of the simulation.
 func (e *NetEnv) Dial(ctx context.Context, network, addr string) (net.Conn, error) {
 	e.Dials++
+	if e.DialBlocks {
+		// a dial function that negotiates before it returns (a TLS or proxy dialer) against a
+		// peer that never answers: it comes back when its context says so, and only then
+		e.DialBlockedAt = e.K.Now()
+		<-ctx.Done()
+		return nil, &net.OpError{Op: "dial", Net: network, Err: ctx.Err()}
+	}
 	if e.DialFail == e.Dials {
 		return nil, &net.OpError{Op: "dial", Net: network, Err: errors.New("simulated dial failure")}
 	}
@@ -194,6 +204,10 @@ func RunSim(t *testing.T, seed uint64, pol sim.Policy, maxSteps int, horizon tim
 			k.HorizonN = int64(horizon)
 			if sim.RaceEnabled {
 				k.MaxIdleJump = 5000
+			} else {
+				// a task blocked on a timer of the bubble (a context deadline inside a dial
+				// function) comes back on its own: give it two virtual minutes
+				k.ExternalWait = int64(2 * time.Minute)
 			}
 			body, freeze := setup(k)
 			k.Go("client", body)
